@@ -133,7 +133,9 @@ func genBasePlaceholderName(node ast.Node, defaultName string) string {
 func genBasePlaceholderNameFromExpr(expr ast.Node, defaultName string) string {
 	switch expr := expr.(type) {
 	case *ast.GlobalNode:
-		return toUpperUnderscore(expr.Name)
+		// the last segment of a dotted name (a dot could not appear in a
+		// placeholder name).
+		return toUpperUnderscore(expr.Name[strings.LastIndex(expr.Name, ".")+1:])
 	case *ast.DataRefNode:
 		if len(expr.Access) == 0 {
 			return toUpperUnderscore(expr.Key)
